@@ -106,6 +106,20 @@ def cases(tier, seed):
             yield {"kind": "retire-at-end-then-exit",
                    "cfg": _cfg("factory", w, wq, None, q, wid_delay=0.5, wait_ready=True, item_s=0.05),
                    "calls": [{"ordered": True, "n": w * q, "cs": 1}]}
+    # a call ends while the replacement of a retired worker is still in progress; the NEXT call must terminate too ---
+    for pause in (0.0, 0.4):
+        base = {"pool": "factory", "wq": 1.0, "rq": None, "factory_delay": 0.4, "factory_slow_from": 2}
+        yield {"kind": "replacement-in-progress-at-call-end", "cfg": dict(base, workers=1, quota=1),
+               "calls": [{"ordered": True, "n": 2, "cs": 1, "base": 10, "pause_after": pause},
+                         {"ordered": True, "n": 3, "cs": 1, "base": 110}]}
+        yield {"kind": "replacement-in-progress-at-call-end", "cfg": dict(base, workers=2, quota=1, factory_slow_from=3),
+               "calls": [{"ordered": True, "n": 2, "cs": 1, "base": 10, "pause_after": pause},
+                         {"ordered": False, "n": 4, "cs": 1, "base": 110}]}
+    # input containers other than list / generator: every finite iterable must be consumed and the call must end ---
+    for kind in ("deque", "tuple", "range", "circular"):
+        for ordered in (True, False):
+            yield {"kind": "input-container", "cfg": _cfg("functor", 2, 1.0, None),
+                   "calls": [{"ordered": ordered, "n": 5, "cs": 2, "container": kind}]}
     # tight queues ------------------------------------------------------------------------------------------------
     for w in ((1,) if quick else (1, 2)):
         for n, cs, ordered in itertools.product(range(0, 6), (1, 2, 3), (True, False)):
